@@ -148,6 +148,10 @@ func (B *Bounds) insWriteFree(ins ssa.Instruction) bool {
 			if e, ok := stdEffects[callee.String()]; ok && e == effNone {
 				return true // standard-library function that writes nothing visible to the caller
 			}
+			// byte-order writers fill the slice they are given and nothing else
+			if n := callee.String(); (strings.HasPrefix(n, "(encoding/binary.bigEndian).PutUint") || strings.HasPrefix(n, "(encoding/binary.littleEndian).PutUint")) && len(cc.Args) == 3 {
+				return localRoot(cc.Args[1])
+			}
 			return B.writeFree(callee)
 		}
 		return false
